@@ -38,3 +38,4 @@ def replay(pid, path):
 import p_streams  # noqa: E402,F401
 import p_devices  # noqa: E402,F401
 import p_pure  # noqa: E402,F401
+import p_profile  # noqa: E402,F401
